@@ -4,6 +4,7 @@ from __future__ import annotations
 import ast
 
 from ..errors import AnalysisError
+from ..astutil import clone
 from ..model import src, walk_local, docstring_free
 from ..affine import affine, NotAffine
 from .. import names as N
@@ -83,6 +84,49 @@ def r2_preamble(ctx):
                   'the excerpt preamble exports, with export_token, the signature nodes recorded in the context of each node of from_stage')
 
 
+class _WeightSums(ast.NodeTransformer):
+    """`sum(w(c) for c in S)` where w depends on the cell only through comparisons with a few constants (an if-chain, a
+    conditional expression, a look-up in a constant table with a default) is `w(other) * len(S) + sum((w(k) - w(other)) *
+    S.count(k))`: the weights are computed by the checker's evaluator, one constant at a time."""
+
+    def __init__(self, ctx, fi):
+        self.ctx, self.fi = ctx, fi
+
+    def visit_Call(self, node):
+        node = self.generic_visit(node)
+        if not (isinstance(node.func, ast.Name) and node.func.id == 'sum' and len(node.args) == 1 and not node.keywords
+                and isinstance(node.args[0], (ast.GeneratorExp, ast.ListComp)) and len(node.args[0].generators) == 1):
+            return node
+        g = node.args[0].generators[0]
+        if g.ifs or not isinstance(g.target, ast.Name):
+            return node
+        var, elt, seq = g.target.id, node.args[0].elt, g.iter
+        keys = []
+        for n in ast.walk(elt):
+            if isinstance(n, ast.Constant) and isinstance(n.value, str) and n.value not in keys:
+                keys.append(n.value)
+            if isinstance(n, (ast.Name, ast.Attribute)):
+                ok, t = self.ctx.ce.try_eval(n, self.fi.module, self.fi.cls, {})
+                if ok and isinstance(t, (dict, set, frozenset, list, tuple)):
+                    keys.extend(k for k in t if isinstance(k, str) and k not in keys)
+        other = '\x00any other cell'
+
+        def weight(k):
+            ok, v = self.ctx.ce.try_eval(elt, self.fi.module, self.fi.cls, {var: k})
+            return v if ok and isinstance(v, int) and not isinstance(v, bool) else None
+        w0 = weight(other)
+        ws = {k: weight(k) for k in keys}
+        if w0 is None or any(v is None for v in ws.values()) or len(keys) > 12:
+            return node
+        out = ast.BinOp(left=ast.Constant(value=w0), op=ast.Mult(),
+                        right=ast.Call(func=ast.Name(id='len', ctx=ast.Load()), args=[clone(seq)], keywords=[]))
+        for k, v in ws.items():
+            if v != w0:
+                cnt = ast.Call(func=ast.Attribute(value=clone(seq), attr='count', ctx=ast.Load()), args=[ast.Constant(value=k)], keywords=[])
+                out = ast.BinOp(left=out, op=ast.Add(), right=ast.BinOp(left=ast.Constant(value=v - w0), op=ast.Mult(), right=cnt))
+        return ast.fix_missing_locations(out)
+
+
 def r3_terminator(ctx):
     es = ctx.prog.func(f'{EXP}.export_string')
     guards_ = [n for n in walk_local(es.node) if isinstance(n, ast.If) and "'*-'" in src(n.test) and 'to_measure' in src(n.test)]
@@ -112,6 +156,8 @@ def r3_terminator(ctx):
                 okb = False
         ctx.check(okb and bool(counts), 'R3', at, es.qualname, 'one-terminator-row', 'exactly one row consisting of *- cells is appended')
         for cnt in counts:
+            cnt = _WeightSums(ctx, es).visit(clone(cnt))
+
             def term(node):
                 s_ = src(node)
                 if s_ == "rows[-1].count('*^')":
